@@ -77,3 +77,12 @@ pub fn panic_kind(msg: &str) -> &'static str {
 }
 /// `<file>/<panic kind>`
 pub fn site(loc: &str, msg: &str) -> String { format!("{}/{}", site_file(loc), panic_kind(msg)) }
+
+/// the cause of a compile-time panic, when the message and the query text name it: a division (also inside tan = sin / cos) whose
+/// operand ranges contain 0; a function applied to a column whose range the WHERE clause has made empty
+pub fn compile_panic_cause(sql: &str, loc: &str, msg: &str) -> Option<&'static str> {
+    if msg.contains("min <= max") && (sql.contains(" / ") || sql.contains("tan(")) { Some("division") }
+    else if msg.contains("divide by zero") { Some("division") }
+    else if msg.contains("Option::unwrap()") && loc.contains("data_type/function.rs") { Some("function-of-empty-range") }
+    else { None }
+}
